@@ -1086,6 +1086,24 @@ func (g *FuncGen) frameKeys(ws *writeSet) []string {
 	for k := range ws.fields {
 		add(k)
 	}
+	// a loop that writes maps, in a function that may not modify maps: the maps that existed at entry keep their content
+	// (the loop fills a map the function has made itself)
+	if ws.maps || ws.all {
+		mapsAllowed := false
+		for _, m := range g.F.Spec.Modifies {
+			mapsAllowed = mapsAllowed || m == "maps"
+		}
+		if !mapsAllowed && g.entry != nil {
+			for _, m := range g.P.MapTypes {
+				g.mapArrays(g.entry, m)
+			}
+			for k := range g.heapKeys {
+				if strings.HasPrefix(k, "$map.") {
+					out = append(out, k)
+				}
+			}
+		}
+	}
 	for t := range ws.allocT {
 		for _, n := range g.P.Structs {
 			if namedKey(n) == t {
@@ -1108,6 +1126,9 @@ func (g *FuncGen) frameKeys(ws *writeSet) []string {
 
 func (g *FuncGen) frameFormula(st *State, k string) string {
 	fs, _ := g.P.fieldSort(k)
+	if strings.HasPrefix(k, "$map.") {
+		fs = g.heapKeys[k]
+	}
 	cur := g.heapGet(st, k, fs)
 	e := heapName(k) + "_0"
 	if g.entry != nil {
